@@ -229,6 +229,7 @@ static void st_load(const unsigned char * keyb, const unsigned char * snapb) {
 }
 
 /* ---- oracle ------------------------------------------------------------------------------------------- */
+static unsigned long long n_fail_unused = 0;
 static unsigned long long n_nontrivial = 0, n_pops = 0, n_overflow = 0, n_queries = 0, n_ledger = 0;
 
 static void model_push(int16_t code, int text) {
@@ -337,7 +338,7 @@ static int apply(int op) {
             if (o->fail) { fail_next = 1; stored = 0; }      /* storing the text fails: the error is still queued, without it */
             if (!INFO) stored = 0;
             SCPI_ErrorPushEx(&ctx, o->code, (char *) texts[o->text == 3 ? 2 : o->text], o->text == 3 ? 2 : 0);
-            if (fail_next) { fail_next = 0; if (o->fail && INFO && o->text) mcx_viol("c10/harness-alloc-not-requested", "push with text did not call strndup"); }
+            if (fail_next) { fail_next = 0; n_fail_unused++; if (o->fail && INFO && o->text && cnt0 < cap) mcx_viol("c10/harness-alloc-not-requested", "push with text onto a queue that is not full did not request memory for the text"); }      /* a full queue drops the text anyway: the library need not allocate */
             model_push(o->code, stored);
             break;
         }
